@@ -871,6 +871,8 @@ class iindex(dict):
                 # Rowids for other.common were not appended above. Do so now.
                 for col in range(self.shape[1]):
                     shifted_rowids = other.common_rowids(col).astype(dtype) + shift
+                    if not len(shifted_rowids):
+                        continue
                     rowids = self.get((other.common, col))
                     if rowids is None:
                         self[(other.common, col)] = shifted_rowids
@@ -888,11 +890,12 @@ class iindex(dict):
             if other.common != self.common:
                 # Rowids for other.common were not appended above. Do so now.
                 shifted_rowids = other.common_rowids().astype(dtype) + shift
-                rowids = self.get((other.common,))
-                if rowids is None:
-                    self[(other.common,)] = shifted_rowids
-                else:
-                    self[(other.common,)] = numpy.append(rowids, shifted_rowids)
+                if len(shifted_rowids):
+                    rowids = self.get((other.common,))
+                    if rowids is None:
+                        self[(other.common,)] = shifted_rowids
+                    else:
+                        self[(other.common,)] = numpy.append(rowids, shifted_rowids)
 
         self.shape = (new_numrows,) + self.shape[1:]
         self.shift_common()
